@@ -15,3 +15,7 @@ if SRC not in sys.path:
     sys.path.insert(0, SRC)
 VERIF = os.path.dirname(os.path.dirname(os.path.dirname(os.path.abspath(__file__))))
 SPEC = os.path.join(VERIF, "spec")
+
+if os.environ.get("VERIF_COVERAGE"):
+    from . import covmon
+    covmon.enable(os.environ["VERIF_COVERAGE"], os.path.join(SRC, "basictdf"))
